@@ -12,6 +12,9 @@ for c in $CFGS; do
   ( $V/bin/extract.sh $c $V/.work/facts/warm-$c.json && rm -f $V/.work/facts/warm-$c.json && echo "warmed $c" ) &
   pids="$pids $!"
 done
+# warm the witness crate's dependency artifacts (E5)
+( cp /repo/Cargo.lock $V/witnesses/w/Cargo.lock && cd $V/witnesses/w && CARGO_TARGET_DIR=$V/.work/target-witness CARGO_INCREMENTAL=0 cargo +nightly check --offline --bin pass_c14_custom_integrals >/dev/null 2>&1 && echo "warmed witnesses" ) &
+pids="$pids $!"
 rc=0
 for p in $pids; do wait $p || rc=1; done
 exit $rc
